@@ -46,6 +46,11 @@ SIGMA_FRACTION = 0.5     # gross-error bound for the stripe-count oracle, in uni
 
 
 shrink_hints = bw.shrink_hints
+ISOLATE = True          # every case in a forked child: consecutive runs of a case share process state, cases do not
+
+
+def child_cleanup():
+    bw.cleanup()
 
 
 def prepare():
